@@ -340,6 +340,46 @@ static std::string heap_line(const std::string &ret, const FreeList &fl)
     return r;
 }
 
+// Every store of an allocator call must go into the chunk it operates on, into
+// a chunk that was free before the call, or behind the old break (evaluated on
+// the real memory by a snapshot diff; stronger than the fill patterns, which
+// cover only the requested bytes of the other live blocks).
+struct StoreWatch
+{
+    std::vector<char> snap;
+    std::vector<std::pair<size_t, size_t>> allowed;
+    size_t brk0 = 0;
+    void begin(char *operated)
+    {
+        brk0 = BRK ? (size_t)(BRK - HC->start) : 0;
+        snap.assign(HC->start, HC->start + brk0);
+        allowed.clear();
+        size_t steps = 0;
+        for (struct __freelist *f = FLP; f && steps++ < 100000; f = f->nx)
+        {
+            size_t a = (size_t)((char *)f - HC->start);
+            allowed.push_back({a, a + 8 + f->sz});
+        }
+        if (operated) allowed.push_back({(size_t)(operated - 8 - HC->start), (size_t)(operated - HC->start) + hdr_of(operated)});
+    }
+    void end(out &o)
+    {
+        for (size_t x = 0; x + 8 <= brk0; x += 8)
+        {
+            if (!memcmp(snap.data() + x, HC->start + x, 8)) continue;
+            bool ok = false;
+            for (auto &a : allowed)
+                if (a.first <= x && x + 8 <= a.second) ok = true;
+            if (!ok)
+            {
+                o.fail("store at offset " + s(x) + " is outside the operated chunk, the free chunks and the space behind the break");
+                return;
+            }
+        }
+    }
+};
+static StoreWatch SW;
+
 // ---------------------------------------------------------------- run
 static void run_op(const std::vector<std::string> &w, const std::string &, out &o)
 {
@@ -583,7 +623,9 @@ static void run_op(const std::vector<std::string> &w, const std::string &, out &
         {
             slot = atoi(w[1].c_str());
             size_t n = strtoul(w[2].c_str(), 0, 10);
+            SW.begin(nullptr);
             char *p = (char *)A->malloc_(n);
+            SW.end(o);
             if (p)
             {
                 Blk b{p, n, 0, hdr_of(p)};
@@ -613,7 +655,9 @@ static void run_op(const std::vector<std::string> &w, const std::string &, out &
             auto it = HC->live.find(slot);
             if (it == HC->live.end())
             {
+                SW.begin(nullptr);
                 A->free_(nullptr);
+                SW.end(o);
                 o.tag("free-null");
             }
             else
@@ -622,7 +666,9 @@ static void run_op(const std::vector<std::string> &w, const std::string &, out &
                 std::string why;
                 if (!heap_intact(b, b.n, b.p, why)) o.fail("contents changed before free at " + why);
                 HC->live.erase(it);
+                SW.begin(b.p);
                 A->free_(b.p);
+                SW.end(o);
                 size_t fl_after = 0;
                 for (struct __freelist *f = FLP; f && fl_after < 100000; f = f->nx) fl_after++;
                 if (BRK != brk_before) o.tag("free-lower-brk");
@@ -639,7 +685,9 @@ static void run_op(const std::vector<std::string> &w, const std::string &, out &
             auto it = HC->live.find(slot);
             if (it == HC->live.end())
             {
+                SW.begin(nullptr);
                 char *p = (char *)A->realloc_(nullptr, n);
+                SW.end(o);
                 o.tag("realloc-null-ptr");
                 if (p)
                 {
@@ -662,7 +710,9 @@ static void run_op(const std::vector<std::string> &w, const std::string &, out &
                 std::vector<char> copy(old.p, old.p + old.n);
                 HC->live.erase(it);
                 // while realloc runs, the old block is still owned by the caller
+                SW.begin(old.p);
                 char *p = (char *)A->realloc_(old.p, n);
+                SW.end(o);
                 if (p)
                 {
                     size_t keep = std::min(old.n, n);
